@@ -133,6 +133,13 @@ namespace N . M {
 """
 
 
+def qt_table():
+    """the options options_for_QT.cpp overrides inside SIGNAL( ) / SLOT( )"""
+    import re
+    t = open(os.path.join(corpus.REPO, "src", "options_for_QT.cpp"), errors="replace").read()
+    return set(re.findall(r"\{\s*&options::(\w+)\s*\}", t))
+
+
 def iarf_sp_options(unc):
     return [o for o in cfggen.registry(unc) if o["kind"] == "iarf" and o["name"].startswith("sp_") and not cfggen.NOT_WS.match(o["name"])]
 
@@ -150,6 +157,9 @@ def coded_configs(unc, rng, nrandom):
 
 def cfg_text(assign):
     return BASE + "".join("%s=%s\n" % kv for kv in assign.items())
+
+
+QT = qt_table()
 
 
 def _job(a):
@@ -197,6 +207,7 @@ def _job(a):
         return [], {"rc": 0, "unmapped": True}
     seen = {}
     res = []
+    src_lines = open(src, "rb").read().decode("latin-1").replace("\r\n", "\n").replace("\r", "\n").split("\n")
     for e in evs:
         if e.get("e") != "Space":
             continue
@@ -214,14 +225,16 @@ def _job(a):
             gout, gin = k2 - i1[3], e["c2"] - e["oce1"]
             rule = e["rule"]
             val = assign.get(rule, "")
-            key = (rule, val, e["av"], e["force"], min(gin, 3), True, min(gout, 3), True, "nlcont", e["t1"])
+            # a backslash-newline that a newline option inserted has no gap in the input
+            ininput = e["l2"] <= len(src_lines) and src_lines[e["l2"] - 1].rstrip(" \t\r").endswith("\\")
+            key = (rule, val, e["av"], e["force"], min(gin, 3), ininput, min(gout, 3), True, "nlcont", e["t1"])
             if key in seen:
                 continue
             seen[key] = 1
             res.append({"id": "%s|%s|%d:%d" % (cname, os.path.basename(src), e["l1"], e["c1"]), "rule": rule, "val": val, "av": AV.get(e["av"], "?"),
-                        "force": e["force"], "minsp": e["min_sp"], "gin": max(gin, 0), "same": True, "gout": max(gout, 0), "outsame": True,
+                        "force": e["force"], "minsp": e["min_sp"], "gin": max(gin, 0), "same": ininput, "gout": max(gout, 0), "outsame": True,
                         "cmt2": False, "s1": list(e["s1"][-12:]), "s2": ["\\"], "lang": lang, "t1": e["t1"], "t2": e["t2"],
-                        "src": src, "cname": cname})
+                        "src": src, "cname": cname, "qt": e.get("qt", 0), "qtrule": rule in QT})
             continue
         p1 = pos.get((e["l1"], e["c1"]))
         p2 = pos.get((e["l2"], e["c2"]))
@@ -242,7 +255,7 @@ def _job(a):
         res.append({"id": "%s|%s|%d:%d" % (cname, os.path.basename(src), e["l1"], e["c1"]), "rule": rule, "val": val, "av": AV.get(e["av"], "?"),
                     "force": e["force"], "minsp": e["min_sp"], "gin": max(gin, 0), "same": same, "gout": max(gout, 0), "outsame": outsame,
                     "cmt2": cmt2, "s1": list(e["s1"][-12:]), "s2": list(e["s2"][:12]), "lang": lang, "t1": e["t1"], "t2": e["t2"],
-                    "src": src, "cname": cname})
+                    "src": src, "cname": cname, "qt": e.get("qt", 0), "qtrule": rule in QT})
     return res, {"rc": 0}
 
 
